@@ -37,6 +37,8 @@ INVALID = [
 # valid units that make the emitter extend or patch buffers it got from realloc (zero-extension of string initialisers up to
 # a later designated element, strings patched by element designators, long literals): sensitive to the contents of fresh memory
 VALID_EXTRA = [
+    # array types that do not come from a declarator (string literals, __func__) as typeof parameters that are then assigned to
+    'int g(typeof("abc") p, int n) { p = p + n; return *p; } int h(typeof(__func__) q) { q++; return q[0]; } int k(typeof(L"ab") w, typeof(u8"c") v) { w += 1; v = v + 1; return *w + *v; }\n',
     # designator chains that reach five and more levels down before a braced sub-list (per-level state of the initializer parser);
     # one chain per unit, so that a result that varies from run to run is not masked by another chain of the same unit
     'struct cube { int cell[2][2][2][2][2][2]; int n; };\nstruct cube c = { .cell[1][0][1][0][1] = {7, 8}, 9 };\n',
@@ -199,6 +201,10 @@ def run(ctx):
                 e1 = b[2].replace(path.encode(), b'<stdin>')
                 if (r[0], r[1]) != (b[0], b[1]) or r[2] != e1:
                     diffs.append(('stdin', r))
+                # the same with the heap filled with a non-zero pattern (the scanner for standard input is set up on its own path)
+                r = run_limited([exe] + args, input=src, timeout=20, env=dict(base_env, MALLOC_PERTURB_='85')); n += 1
+                if (r[0], r[1]) != (b[0], b[1]) or r[2] != e1:
+                    diffs.append(('stdin, MALLOC_PERTURB_=85', r))
             return inp, b, diffs, n
         for (path, args), b, diffs, n in vlib.parallel_map(one, inputs):
             stats['inputs'] += 1
